@@ -31,7 +31,7 @@ MAX_TIMEOUTS = 64
 
 class Segment:
     __slots__ = ("data", "pos", "policy", "fixed", "cuts", "scope", "marks",
-                 "spans", "kind")
+                 "spans", "kind", "delay")
 
     def __init__(self, data, scope, marks=(), spans=(), kind="reply"):
         self.data = data
@@ -43,6 +43,7 @@ class Segment:
         self.marks = sorted(m for m in marks if 0 < m < len(data))
         self.spans = spans
         self.kind = kind
+        self.delay = 0        # number of read timeouts that elapse before this segment arrives
 
     def __repr__(self):
         return "<seg %s %d/%d %s>" % (self.scope, self.pos, len(self.data),
@@ -209,6 +210,17 @@ class SimNet:
             if self._timeouts > MAX_TIMEOUTS:
                 raise SimHang("keeps retrying after %d timeouts in one call" % self._timeouts)
             raise _real_socket.timeout("timed out")
+        if conn.segments and conn.segments[0].delay > 0 and conn.segments[0].pos == 0:
+            if conn.timeout is None:
+                conn.segments[0].delay = 0
+            else:
+                conn.segments[0].delay -= 1
+                st.recv_timeouts += 1
+                st.probe("late_reply")
+                self._timeouts += 1
+                self.clock.now += conn.timeout
+                self.events.append(("recv", conn.id, n, -2))
+                raise _real_socket.timeout("timed out")
         out = bytearray()
         want = n
         while want > 0 and conn.segments:
@@ -229,8 +241,8 @@ class SimNet:
                     if c > seg.pos:
                         k = min(k, c - seg.pos)
                         break
-            if out and pol != 0:
-                break  # never glue into a non-whole segment
+            if out and (pol != 0 or seg.delay > 0):
+                break  # never glue into a non-whole (or not yet arrived) segment
             chunk = seg.data[seg.pos:seg.pos + k]
             self._probe_cut(seg, seg.pos + k, n)
             seg.pos += k
